@@ -702,6 +702,11 @@ func Spec() *mon.Spec {
 			{Name: "sequence", Quick: 2000, Thorough: 50000, Run: runSequence, GoMaxProcs: 4},
 			{Name: "orders", Quick: 240, Thorough: 2400, Run: runOrders, GoMaxProcs: 4},
 		},
-		Floors: map[string]int{},
+		Floors: map[string]int{
+			"distinct_nontrivial": 500, "get_calls": 8000, "gets_aba": 900, "gets_of_unchanged_code": 500, "held_lookups": 5000,
+			"late_updates": 500, "scenarios_with_late_update": 450, "order_scenarios": 80, "reverified_texts": 15000,
+			"scenarios_with_real_check": 250, "scenarios_with_fake_check": 230, "scenarios_without_command_lookup": 150,
+			"final_command_styles_checked": 400, "invalidations": 400, "single_releases": 1400, "code_kinds": 7,
+		},
 	}
 }
